@@ -1,6 +1,7 @@
 package checks
 
 import (
+	"strings"
 	"encoding/json"
 	"fmt"
 	"math/big"
@@ -24,6 +25,7 @@ type DistGenCfg struct {
 	IDCollisions     bool // INTERNAL ids equal to module account names / bech32 addresses
 	SelfAsModule     bool // name the distributor's own account as a MODULE_ACCOUNT
 	AllowBurn        bool
+	Respell          bool // write some BASE_ACCOUNT ids in the upper-case bech32 spelling (the same account, another string)
 	NoVRCSource      bool // never sweep validators_rewards_collector (x/distribution empties it every block: a competing consumer)
 }
 
@@ -271,7 +273,31 @@ func genDistOnce(r *kernel.Rng, cfg DistGenCfg) (disttypes.Params, bool) {
 			subs = append(subs, sd)
 		}
 	}
+	if cfg.Respell {
+		up := func(a *disttypes.Account) {
+			if a.Type == disttypes.BaseAccount && r.P(0.4) {
+				a.Id = strings.ToUpper(a.Id)
+			}
+		}
+		for i := range subs {
+			for _, s := range subs[i].Sources {
+				up(s)
+			}
+			up(&subs[i].Destinations.PrimaryShare)
+			for _, sh := range subs[i].Destinations.Shares {
+				up(&sh.Destination)
+			}
+		}
+	}
 	return disttypes.Params{SubDistributors: subs}, true
+}
+
+// canonBaseID: the canonical spelling of a BASE_ACCOUNT id (one account, whatever the letter case of its bech32 string)
+func canonBaseID(id string) string {
+	if a, err := sdk.AccAddressFromBech32(id); err == nil {
+		return a.String()
+	}
+	return id
 }
 
 func DistGenesisJSON(p disttypes.Params) json.RawMessage {
@@ -285,7 +311,9 @@ func accToModel(a disttypes.Account) models.Acc {
 	case disttypes.ModuleAccount:
 		o.Addr = authtypes.NewModuleAddress(a.Id).String()
 	case disttypes.BaseAccount:
-		o.Addr = a.Id
+		// the model knows accounts, not strings: both spellings of an address are the same account
+		o.ID = canonBaseID(a.Id)
+		o.Addr = o.ID
 	case disttypes.Main:
 		o.ID = ""
 	}
@@ -337,6 +365,9 @@ func distFlowDepth(p disttypes.Params) (depth int, cyclic bool) {
 	key := func(a disttypes.Account) string {
 		if a.Type == disttypes.Main {
 			return "MAIN"
+		}
+		if a.Type == disttypes.BaseAccount {
+			return a.Type + "-" + canonBaseID(a.Id)
 		}
 		return a.Type + "-" + a.Id
 	}
